@@ -257,6 +257,9 @@ def run(ctx):
     # a generated proxy type is cached under everything it was generated from (type name and exposed methods)
     from .generic import memo_key_covers_inputs
     memo_key_covers_inputs(ctx, 'R20.8', ['managers'], floor=1)
+    # the server's object table, its reference counts and a proxy's id set belong to one server / one address
+    from .generic import per_instance_state
+    per_instance_state(ctx, 'R20.9', ['managers'], floor=6)
     r20_6(ctx)
     r20_1(ctx)
     r20_2(ctx)
